@@ -84,6 +84,9 @@ def gen_prop_program(seed, k, mode="interp", **opts):
     return prog
 
 
+ONE = Fr(1)
+
+
 def gen_creep_program(seed, k):
     """a feedback loop through connectives that gains one small dyadic step per sweep: infer() needs about 1/step sweeps --
     many more than there are formulae or bounds in the model -- and ends exactly at a classical fixpoint. Data mode 'given'."""
